@@ -27,3 +27,7 @@ reg("C18", "exploration",
     "Generated merge inputs (seeded character-set partitions of corpus fonts, compatible corpus tuples, FontBuilder-generated TrueType/CFF fonts with name clashes, duplicate code points and generated kerning/ligatures) merged with fontTools.merge and observed through HarfBuzz: every character keeps the outline and advance of the first input mapping it, glyph names are unique, and for disjoint character sets each input's texts shape to the same (outline, advance, offset) sequence in the merged font.",
     "HarfBuzz as observer; inputs constructed to satisfy the merger's documented restrictions (equal upem, same flavour, static, GSUB present when duplicates must be disambiguated, identical non-layout table sets for corpus tuples).",
     "metamorphic / differential testing through an independent shaper over generated input tuples", "DESIGN.md section 2 C18")
+reg("C09", "exploration",
+    "rebaseTent checked exhaustively on the 1/4 lattice of well-formed tents x axis limits in both tiers (1/8 lattice in thorough) against an exact-rational reference at 65+ points per case incl. all break points; generated master models (5 evaluation routes vs exact deltas/scalars), item and multi variation stores (build, optimize, subset, prune, compile vs own binary parser), IUP inference/optimisation and TupleVariation.optimize checked against the same reference.",
+    "vf/ref_var.py (fractions.Fraction reference written from the OpenType variations spec) is trusted; float tolerance 1e-9*scale because the library computes in binary floating point; no optimality claims.",
+    "exhaustive lattice enumeration + property-based testing against an exact-rational reference model", "DESIGN.md section 2 C09")
